@@ -563,14 +563,14 @@ func slowSenderCloseRun(r *vh.Runner, c *vh.Case, i int) {
 		select {
 		case <-done:
 			return true
-		case <-time.After(20 * time.Second):
+		case <-time.After(8 * time.Second):
 			same, dump := vh.StuckIn(3*time.Second, "hop/tubes.")
 			if !same {
 				c.Inconclusive("real-time slow-close case slow but still moving: " + name)
 				return false
 			}
 			detail["goroutine_dump"] = dump
-			detail["state_a"], detail["state_b"] = stateName(a), stateName(b.(*tubes.Reliable))
+			// (no look at the tubes' states here: the accessor takes the very lock that may be stuck)
 			c.Violate("C16:call-does-not-return:"+name+":slow-sender-close", detail)
 			return false
 		}
